@@ -31,6 +31,7 @@ from ngo.utils.ast import (
     SIGNS,
     AnnotatedPredicate,
     Predicate,
+    SignedPredicate,
     SignSetType,
     body_predicates,
     collect_ast,
@@ -59,8 +60,24 @@ class RuleDependency:
                 ):
                     self.head2bodies[head].append(stm.body)
                     self.head2rules[head].append(stm)
-            for p in chain(body_predicates(stm, SIGNS), minimize_predicates(stm, SIGNS)):
+            for p in chain(body_predicates(stm, SIGNS), minimize_predicates(stm, SIGNS), self._head_conditions(stm)):
                 self.pred2stm[p.pred].append(stm)
+
+    @staticmethod
+    def _head_conditions(stm: AST) -> Iterator[SignedPredicate]:
+        """the predicates used in the conditions of choice, disjunction and head aggregate elements"""
+        if stm.ast_type != ASTType.Rule:
+            return
+        head = stm.head
+        if head.ast_type in (ASTType.Aggregate, ASTType.Disjunction):
+            for elem in head.elements:
+                for cond in elem.condition:
+                    yield from literal_predicate(cond, SIGNS)
+        elif head.ast_type == ASTType.HeadAggregate:
+            for elem in head.elements:
+                if elem.ast_type == ASTType.HeadAggregateElement:
+                    for cond in elem.condition.condition:
+                        yield from literal_predicate(cond, SIGNS)
 
     def get_bodies(self, head: Predicate) -> list[AST]:
         """return all bodies of head predicate"""
